@@ -9,12 +9,12 @@ Import ListNotations.
 Theorem C01_build_sem :
   forall p r m inputs outputs,
   build_checked p r = inl m -> all_vars (r_inputs r) = Some inputs -> all_vars (r_outputs r) = Some outputs ->
-  let p' := with_main p (Some (map snd inputs)) outputs in
+  let p' := with_main p (Some (main_args inputs)) outputs in
   forall (val : Type) (dv : val) (opsem : nat -> list (option val) -> list (clos val) -> list val),
   (forall n ivs c1 c2, Forall2 (fun a b => forall av, a av = b av) c1 c2 -> opsem n ivs c1 = opsem n ivs c2) ->
   forall av : list val,
   run_plan p' val dv opsem (plan_of_graph p' 0 (mmain m)) av =
-  map (meaning p' val dv opsem (bindv val dv (map snd inputs) av)) (map snd outputs).
+  map (meaning p' val dv opsem (bindv val dv (main_args inputs) av)) (map snd outputs).
 Proof. exact build_sem. Qed.
 Print Assumptions C01_build_sem.
 
@@ -37,7 +37,7 @@ Print Assumptions C01_linearisation_correct.
 Theorem C01_unrequested_irrelevant :
   forall p r m inputs outputs, build_checked p r = inl m ->
   all_vars (r_inputs r) = Some inputs -> all_vars (r_outputs r) = Some outputs ->
-  forall u, In u (srcs_graph (mmain m)) <-> In u (reachable (with_main p (Some (map snd inputs)) outputs) 0).
+  forall u, In u (srcs_graph (mmain m)) <-> In u (reachable (with_main p (Some (main_args inputs)) outputs) 0).
 Proof. intros p r m i o H Hi Ho. apply build_checked_inv in H. destruct H as [_ Hv].
   exact (proj2 (emitted_exactly_once p r m i o Hi Ho Hv)). Qed.
 Print Assumptions C01_unrequested_irrelevant.
